@@ -74,3 +74,9 @@ Definition lrun_ok (progs : list (list act)) (sched : list nat) : bool :=
   | Some (_, tr) => trace_ok tr && negb (has_adjacent_race tr) && Nat.eqb (List.length tr) (List.length sched)
   | None => false
   end.
+
+(* What Send obtains before it calls the transport Write: with a write timeout
+   configured it first sets the write deadline — if the transport refuses that,
+   Send returns the error and nothing is marshalled onto the transport. *)
+Definition send_prep (deadline_ok : bool) (m : outcome bytes) : outcome bytes :=
+  if deadline_ok then m else Err EOther.
